@@ -102,8 +102,11 @@ theorem budget_trapezoid (k x dt : ℝ) (hden : 2 * k * (1 - x) + dt ≠ 0) (xs 
   have := budget k x dt hden xs st
   linarith
 
-/-- **event_volume.** If a run ends in the state it started from (in particular: starts at rest and has fully
-receded, or starts and ends in the same steady flow), the outflow volume equals the inflow plus lateral volume. -/
+/-- **event_volume.** If a run ends in the state it started from, the outflow volume equals the inflow plus lateral volume.
+NOTE: `(run …).1 = st` is an exact equality of states; it holds for steady runs (`steady_passes`) but a reach that starts at rest
+and has received water never returns EXACTLY to rest (the recession is geometric: `run_zero_tail`). The event-volume clause for a
+real event — start at rest, any inflow series, then a recession — is `event_volume_remainder` (exact remainder after `n + 1` dry
+steps) and `event_volume_limit` (the remainder tends to zero); `budget` is the exact statement for every run. -/
 theorem event_volume (k x dt : ℝ) (hden : 2 * k * (1 - x) + dt ≠ 0) (xs : List (ℝ × ℝ)) (st : ℝ × ℝ)
     (hend : (run k x dt st xs).1 = st) :
     dt * (run k x dt st xs).2.sum = dt * totalIn xs := by
@@ -111,6 +114,65 @@ theorem event_volume (k x dt : ℝ) (hden : 2 * k * (1 - x) + dt ≠ 0) (xs : Li
   rw [hend] at this
   simp only [sub_self, mul_zero, add_zero] at this
   linarith
+
+theorem totalIn_append_zeros (xs : List (ℝ × ℝ)) (m : ℕ) : totalIn (xs ++ List.replicate m (0, 0)) = totalIn xs := by
+  unfold totalIn
+  simp
+
+/-- **event_volume_remainder.** Start at rest, let ANY series `xs` (upstream + lateral) enter, then `n + 1` steps without inflow.
+The volume not yet delivered at the outlet is exactly
+`Δt·Σ(inflow+lateral) − Δt·Σ outflow = (K(1−X) − Δt/2) · a3ⁿ · O₁`, where `O₁ = a2·I_end + a3·O_end` is the outflow of the first dry
+step (`(I_end, O_end)` = state at the end of `xs`): the water still stored in the reach, which decays geometrically with ratio `a3`
+(`|a3| < 1` for `K(1−X) > 0`, `Δt > 0`: `OW.Proofs.Muskingum.a3_abs_lt_one`). -/
+theorem event_volume_remainder (k x dt : ℝ) (hden : 2 * k * (1 - x) + dt ≠ 0) (xs : List (ℝ × ℝ)) (n : ℕ) :
+    dt * totalIn xs - dt * (run k x dt (0, 0) (xs ++ List.replicate (n + 1) (0, 0))).2.sum =
+      (k * (1 - x) - dt / 2) * ((coef k x dt).a3 ^ n *
+        ((coef k x dt).a2 * (run k x dt (0, 0) xs).1.1 + (coef k x dt).a3 * (run k x dt (0, 0) xs).1.2)) := by
+  have hb := budget k x dt hden (xs ++ List.replicate (n + 1) (0, 0)) (0, 0)
+  rw [run_event_tail_state, totalIn_append_zeros] at hb
+  simp only at hb
+  linarith
+
+/-- **event_volume_limit.** For `K(1−X) > 0` and `Δt > 0` (every parameter set of the stable region with `Δt > 0`): started at rest, the
+outflow volume of an event followed by a long enough recession is as close to the inflow + lateral volume as one wishes — for every
+`ε > 0` there is `N` such that after any `n ≥ N` further dry steps the two volumes differ by less than `ε`. (The divisor
+`2K(1−X)+Δt` is positive under the hypotheses.) -/
+theorem event_volume_limit (k x dt : ℝ) (hk : 0 < k * (1 - x)) (hdt : 0 < dt) (xs : List (ℝ × ℝ)) (ε : ℝ) (hε : 0 < ε) :
+    ∃ N, ∀ n, N ≤ n →
+      |dt * totalIn xs - dt * (run k x dt (0, 0) (xs ++ List.replicate (n + 1) (0, 0))).2.sum| < ε := by
+  have h2 : 2 * k * (1 - x) = 2 * (k * (1 - x)) := by ring
+  have hden : 2 * k * (1 - x) + dt ≠ 0 := by rw [h2]; exact ne_of_gt (by linarith)
+  have ha := a3_abs_lt_one k x dt hk hdt
+  set O1 := (coef k x dt).a2 * (run k x dt (0, 0) xs).1.1 + (coef k x dt).a3 * (run k x dt (0, 0) xs).1.2 with hO1
+  set C := |k * (1 - x) - dt / 2| * |O1| with hC
+  have hC0 : 0 ≤ C := mul_nonneg (abs_nonneg _) (abs_nonneg _)
+  have hδ : 0 < ε / (C + 1) := div_pos hε (by linarith)
+  obtain ⟨N, hN⟩ := exists_pow_lt_of_lt_one hδ ha
+  refine ⟨N, fun n hn => ?_⟩
+  rw [event_volume_remainder k x dt hden xs n, ← hO1, abs_mul, abs_mul, abs_pow]
+  have hpow : |(coef k x dt).a3| ^ n ≤ |(coef k x dt).a3| ^ N := pow_le_pow_of_le_one (abs_nonneg _) (le_of_lt ha) hn
+  have e : |k * (1 - x) - dt / 2| * (|(coef k x dt).a3| ^ n * |O1|) = C * |(coef k x dt).a3| ^ n := by rw [hC]; ring
+  rw [e]
+  have hmul : (C + 1) * (ε / (C + 1)) = ε := by field_simp
+  calc C * |(coef k x dt).a3| ^ n ≤ C * |(coef k x dt).a3| ^ N := mul_le_mul_of_nonneg_left hpow hC0
+    _ ≤ C * (ε / (C + 1)) := mul_le_mul_of_nonneg_left (le_of_lt hN) hC0
+    _ < (C + 1) * (ε / (C + 1)) := by nlinarith
+    _ = ε := hmul
+
+/-- non-vacuity of `event_volume_remainder` / `event_volume_limit`: `K = Δt = 86400`, `X = 0.25` lie in the stable region
+(`2KX ≤ Δt ≤ 2K(1−X)`), `K(1−X) > 0`, `a3 = 1/5`; one unit of inflow for one step, then two dry steps: outflows 1/5, 16/25, 16/125,
+undelivered volume `Δt·(1 − 121/125) = (K(1−X) − Δt/2)·a3·O₁` with `O₁ = 16/25` — not zero, so `event_volume`'s hypothesis fails for
+this run while the remainder theorem applies -/
+example : (0 : ℝ) < 86400 * (1 - 0.25) ∧ 2 * (86400 : ℝ) * 0.25 ≤ 86400 ∧ (86400 : ℝ) ≤ 2 * 86400 * (1 - 0.25) ∧
+    (coef (86400 : ℝ) 0.25 86400).a3 = 1 / 5 ∧
+    (run (86400 : ℝ) 0.25 86400 (0, 0) ([(1, 0)] ++ List.replicate (1 + 1) (0, 0))).2 = [1 / 5, 16 / 25, 16 / 125] := by
+  have hc : coef (86400 : ℝ) 0.25 86400 = ⟨1 / 5, 3 / 5, 1 / 5⟩ := by
+    rw [coef_eq]; norm_num
+  refine ⟨by norm_num, by norm_num, by norm_num, by rw [hc], ?_⟩
+  unfold run
+  rw [hc]
+  simp only [List.replicate, List.cons_append, List.nil_append, scan, step]
+  norm_num
 
 /-- non-vacuity: parameters of the stable region have a non-zero denominator; a concrete steady run -/
 example : (2 : ℝ) * 86400 * (1 - 0.25) + 86400 ≠ 0 ∧
@@ -131,13 +193,21 @@ open OW.Kernels.Lag OW.Proofs.Lag
 variable {α : Type} [Inhabited α]
 
 /-- **lag_spec (outflow).** For any lag ≥ 1 (in steps), any series length (shorter or longer than the lag) and any
-buffer of at least `lag` cells: the outflow has the length of the inflow and
-`outflow[i] = if i < lag then buffer₀[i] else inflow[i − lag]`. (Lag 0: `lag_zero`.) -/
-theorem lag_spec_outflow (lag : Nat) (inflow lagged out0 : List α) (hout : out0.length = inflow.length) :
+buffer of at least `lag` cells (`lag ≤ lagged.length`: a shorter buffer is the Go code's index-out-of-range panic, `lag_run_short`;
+the statement is in terms of `[i]?`, so no default value stands in for a cell that does not exist): the outflow has the length of
+the inflow and `outflow[i] = if i < lag then buffer₀[i] else inflow[i − lag]`. (Lag 0: `lag_zero`; the kernel: `lag_run_spec`.) -/
+theorem lag_spec_outflow (lag : Nat) (inflow lagged out0 : List α) (hout : out0.length = inflow.length)
+    (hlen : lag ≤ lagged.length) :
     (lagCore lag inflow lagged out0).outflow.length = inflow.length ∧
-    ∀ i, i < inflow.length → (lagCore lag inflow lagged out0).outflow.getD i default =
-      if i < lag then lagged.getD i default else inflow.getD (i - lag) default :=
-  lagCore_outflow lag inflow lagged out0 hout
+    ∀ i, i < inflow.length → (lagCore lag inflow lagged out0).outflow[i]? =
+      if i < lag then lagged[i]? else inflow[i - lag]? := by
+  obtain ⟨hl, hg⟩ := lagCore_outflow lag inflow lagged out0 hout
+  refine ⟨hl, fun i hi => ?_⟩
+  have h1 : i < (lagCore lag inflow lagged out0).outflow.length := by rw [hl]; exact hi
+  rw [List.getElem?_eq_getElem h1, ← getD_of_lt _ default h1, hg i hi]
+  by_cases hlag : i < lag
+  · rw [if_pos hlag, if_pos hlag, getD_of_lt _ _ (by omega : i < lagged.length), List.getElem?_eq_getElem]
+  · rw [if_neg hlag, if_neg hlag, getD_of_lt _ _ (by omega : i - lag < inflow.length), List.getElem?_eq_getElem]
 
 /-- **lag_spec (buffer).** With a buffer of exactly `lag` cells the final buffer is the last `lag` elements of
 `buffer₀ ++ inflow`, for any lag and any series length. -/
@@ -207,10 +277,56 @@ theorem lag_run (timeLag : ℝ) (inflow lagged : List ℝ) (h : 0 < Num.toInt ti
   have h2 : ¬ Num.toInt timeLag < 0 := by omega
   simp only [h1, h2, Bool.false_eq_true, if_false]
 
+/-- a positive lag with a state row shorter than the lag: the Go code indexes `lagged[i]` out of range -/
+theorem lag_run_short (timeLag : ℝ) (inflow lagged : List ℝ) (h : 0 < Num.toInt timeLag)
+    (hshort : lagged.length < (Num.toInt timeLag).toNat) :
+    run timeLag inflow lagged = .error "index-out-of-range" := by
+  rw [lag_run timeLag inflow lagged h, if_pos hshort]
+
+/-- **lag_run_spec** (the kernel `Lag.run`, not only its core loop): for `lag = int(timeLag) ≥ 1` and a state row of at least `lag`
+cells the run completes, the outflow has the length of the inflow with
+`outflow[i] = if i < lag then buffer₀[i] else inflow[i − lag]` (every cell read exists), and the returned state row has the length
+of the one given, its first `lag` cells being the last `lag` elements of `buffer₀[0..lag) ++ inflow`, the others untouched.
+With a shorter state row the run is the index-out-of-range panic (`lag_run_short`); lag 0 is `lag_zero`; a negative `int(timeLag)`
+is a panic by the definition of `run`. -/
+theorem lag_run_spec (timeLag : ℝ) (inflow lagged : List ℝ) (h : 0 < Num.toInt timeLag)
+    (hlen : (Num.toInt timeLag).toNat ≤ lagged.length) :
+    ∃ o, run timeLag inflow lagged = .ok o ∧ o.outflow.length = inflow.length ∧
+      (∀ i, i < inflow.length → o.outflow[i]? =
+        if i < (Num.toInt timeLag).toNat then lagged[i]? else inflow[i - (Num.toInt timeLag).toNat]?) ∧
+      o.lagged.length = lagged.length ∧
+      ∀ j, o.lagged.getD j default =
+        if j < (Num.toInt timeLag).toNat then
+          ((lagged.take (Num.toInt timeLag).toNat ++ inflow).drop inflow.length).getD j default
+        else lagged.getD j default := by
+  have hz : (zeros inflow.length : List ℝ).length = inflow.length := by simp [zeros]
+  refine ⟨_, by rw [lag_run timeLag inflow lagged h, if_neg (by omega)], ?_⟩
+  obtain ⟨o1, o2⟩ := lag_spec_outflow (Num.toInt timeLag).toNat inflow lagged (zeros inflow.length) hz hlen
+  obtain ⟨b1, b2⟩ := lag_spec_buffer_padded (Num.toInt timeLag).toNat inflow lagged (zeros inflow.length) hlen
+  exact ⟨o1, o2, b1, b2⟩
+
 /-- non-vacuity: lag 2 on a series of length 1 (lag longer than the series) and of length 3 -/
 example : (lagCore 2 [7] [1, 2] [0] : Out Nat).outflow = [1] ∧ (lagCore 2 [7] [1, 2] [0] : Out Nat).lagged = [2, 7] ∧
     (lagCore 2 [7, 8, 9] [1, 2] [0, 0, 0] : Out Nat).outflow = [1, 2, 7] ∧
     (lagCore 2 [7, 8, 9] [1, 2] [0, 0, 0] : Out Nat).lagged = [8, 9] := by
+  decide
+
+/-- non-vacuity of `lag_spec_outflow`'s new hypothesis: with a buffer SHORTER than the lag the `getD` form of the statement would
+read a default value (`lagCore 2 [7, 8, 9] [1] …` puts `default = 0` into `outflow[1]`) where the Go code panics; with
+`lag ≤ lagged.length` every cell read exists -/
+example : (lagCore 2 [7, 8, 9] [1] [0, 0, 0] : Out Nat).outflow = [1, 0, 7] ∧ ¬ (2 ≤ ([1] : List Nat).length) ∧
+    (2 ≤ ([1, 2] : List Nat).length) := by
+  decide
+
+/-- non-vacuity of `lag_run_spec` / `lag_run_short`: `timeLag = 2` is a positive lag; a two-cell state row is long enough, a one-cell
+row is the panic case -/
+example : 0 < Num.toInt (2 : ℝ) ∧ (Num.toInt (2 : ℝ)).toNat ≤ ([1, 2] : List ℝ).length ∧
+    ([7] : List ℝ).length < (Num.toInt (2 : ℝ)).toNat := by
+  have h : Num.toInt (2 : ℝ) = 2 := by
+    show (if (0:ℝ) ≤ 2 then ⌊(2:ℝ)⌋ else ⌈(2:ℝ)⌉) = 2
+    rw [if_pos (by norm_num)]
+    exact Int.floor_ofNat 2
+  rw [h]
   decide
 
 end LagKernel
@@ -346,12 +462,12 @@ theorem calcOutflow_balance (hd : 0 < dur) (hp : 0 ≤ prevStorage) (hl : 0 ≤ 
         have hx0 : bias * (inflow + lateral) ≤ bias * (inflow + lateral) ∧
             bias * (inflow + lateral) ≤ maxQI c (bias * (inflow + lateral)) := ⟨le_refl _, hle⟩
         have hin := C18.result_in_interval hle f1 f2 hx0 hfr
-        have hval := C18.result_delta_is_value hle f1 f2 hx0 hfr
+        have hval := C18.result_delta_is_value hle f1 f2 hfr
         rw [massBalanceFn_real] at hval
-        have hnc := C18.no_conv_exit (le_of_eq conv_eq) hle f1 f2 hx0 hfr
+        have hnc := C18.no_conv_exit (le_of_eq conv_eq) hle f1 f2 hfr
         obtain ⟨e0, _, e2⟩ := sindex_exit_err c fr.x "root" hcd hns hcb (by rw [hmin]; exact hin.1)
         refine ⟨e0, Or.inr (Or.inr ⟨rfl, fr, hfr, rfl, hval, by rw [hval]; exact e2, hnc, fun hex => ?_⟩)⟩
-        have ht := C18.tol_exit hle f1 f2 hx0 hfr hex
+        have ht := C18.tol_exit hle f1 f2 hfr hex
         rw [hval] at ht
         exact lt_of_le_of_lt e2 (max_lt mbl_pos (lt_of_le_of_lt (le_abs_self _) ht))
 
@@ -376,10 +492,11 @@ theorem calcOutflow_nonneg (hd : 0 < dur) (r : CO ℝ)
       · exact ⟨rr_outflow_nonneg _ _ hcd, hS _⟩
       · exact ⟨rr_outflow_nonneg _ _ hcd, hS _⟩
 
-/-- **sq_relation**: zero inflow bias (`bias = 0`, hence `Klimit = k`, `Qlimit = 0`, `Koffset = 0` for `m ≤ 1`). On every exit
-that reports the index storage (`balanced-at-minqi`, `prev-qi`, `mid-qi`, `root`) the reported storage is
-`S = k·q^m + dead` for the returned index flow `q ≥ 0` (`S = dead` at `q = 0`), and the reported outflow differs from `q`
-by at most the mass-balance residual expressed as a flow: `|q − outflow|·Δt ≤ |residual(q)|`. -/
+/-- **sq_relation** (a fact about `runRouting` at an ARBITRARY index flow `q ≥ 0`, not about what `calcOutflow` returns — that is
+`sq_calcOutflow` / `sq_calcOutflow_converged` / `sq_full_drain` below): zero inflow bias (`bias = 0`, hence `Klimit = k`,
+`Qlimit = 0`, `Koffset = 0` for `m ≤ 1`). The index storage that `runRouting` reports at `q` is `S = k·q^m + dead` (`S = dead` at
+`q = 0`), and the outflow it reports differs from `q` by at most the mass-balance residual expressed as a flow:
+`|q − outflow|·Δt ≤ |residual(q)|`. -/
 theorem sq_relation (hd : 0 < dur) (q : ℝ) (hq : 0 ≤ q) (hrp : rp ≤ 1) :
     let c := mkCtx inflow lateral 0 prevStorage ner area dead dur rp rc 0 rc 0
     (rr c q).sIndex = (if q ≤ 0 then dead else rc * q ^ rp + dead) ∧
@@ -414,6 +531,425 @@ theorem sq_relation (hd : 0 < dur) (q : ℝ) (hq : 0 ≤ q) (hrp : rp ≤ 1) :
     rw [abs_of_nonneg h1, abs_of_nonneg (by linarith)]
     linarith
 
+/-! ### the storage-discharge relation of what `calcOutflow` RETURNS
+
+`sq_relation` above is a fact about `runRouting` at an arbitrary index flow `q`. The theorems below are about the record `r`
+returned by `calcOutflow`: which index flow it carries, that the reported storage and outflow are those of that index flow, and how
+large the residual at it can be, exit by exit. -/
+
+/-- the index storage for zero inflow bias and `m ≤ 1` (`Klimit = k`, `Qlimit = 0`, `Koffset = 0`): the plain power law -/
+theorem sIndex_zero_bias (q : ℝ) (hrp : rp ≤ 1) :
+    sIndex (mkCtx inflow lateral 0 prevStorage ner area dead dur rp rc 0 rc 0) q =
+      if q ≤ 0 then dead else rc * q ^ rp + dead := by
+  rw [sIndex_eq]
+  show (if q ≤ 0 then dead else if (rp ≤ 1 ∧ q < 0) ∨ (1 < rp ∧ 0 < q) then rc * q + dead else rc * q ^ rp - 0 + dead) = _
+  by_cases hq0 : q ≤ 0
+  · rw [if_pos hq0, if_pos hq0]
+  · rw [if_neg hq0, if_neg hq0, if_neg, sub_zero]
+    rintro (⟨_, h⟩ | ⟨h, _⟩) <;> linarith
+
+/-- the index flow is `q = bias·(inflow+lateral) + (1−bias)·outflow`; solved for the outflow and compared with the outflow that
+`runRouting` reports at `q ≥ minQI`, the difference as a volume is at most the mass-balance residual at `q`
+(divisors `Δt` and `1 − bias` non-zero: `Δt > 0`, `bias < 0.999`). -/
+theorem sq_index_flow (c : Ctx ℝ) (q : ℝ) (hd : 0 < c.duration) (hb : c.bias < 0.999)
+    (hq : c.bias * (c.inflow + c.lateral) ≤ q) :
+    |(q - c.bias * (c.inflow + c.lateral)) / (1 - c.bias) - (rr c q).outflow| * c.duration ≤ |(rr c q).massBalance| := by
+  have hb1 : (0 : ℝ) < 1 - c.bias := by
+    have : (0.999 : ℝ) < 1 := by norm_num
+    linarith
+  have hA : 0 ≤ (q - c.bias * (c.inflow + c.lateral)) * c.duration / (1 - c.bias) :=
+    div_nonneg (mul_nonneg (by linarith) (le_of_lt hd)) (le_of_lt hb1)
+  have hout : (rr c q).outflow * c.duration = max 0 (newStorage c - sIndex c q) := by
+    rw [rr_outflow, div_mul_cancel₀ _ (ne_of_gt hd)]
+  have e : |(q - c.bias * (c.inflow + c.lateral)) / (1 - c.bias) - (rr c q).outflow| * c.duration =
+      |(q - c.bias * (c.inflow + c.lateral)) * c.duration / (1 - c.bias) - (rr c q).outflow * c.duration| := by
+    have : (q - c.bias * (c.inflow + c.lateral)) * c.duration / (1 - c.bias) - (rr c q).outflow * c.duration =
+        ((q - c.bias * (c.inflow + c.lateral)) / (1 - c.bias) - (rr c q).outflow) * c.duration := by ring
+    rw [this, abs_mul, abs_of_pos hd]
+  rw [e, hout, rr_massBalance c q hb]
+  generalize (q - c.bias * (c.inflow + c.lateral)) * c.duration / (1 - c.bias) = A at hA ⊢
+  rcases le_total (sIndex c q) (newStorage c) with h | h
+  · rw [max_eq_right (by linarith)]
+    have : A - (newStorage c - sIndex c q) = A + sIndex c q - newStorage c := by ring
+    rw [this]
+  · rw [max_eq_left (by linarith), sub_zero, abs_of_nonneg hA, abs_of_nonneg (by linarith)]
+    linarith
+
+theorem maxQI_eq (c : Ctx ℝ) (m : ℝ) : maxQI c m = m + (1 - c.bias) * drainOutflow c := by
+  unfold maxQI drainOutflow
+  simp only [RealNum.gmax_eq, z0, o1]
+
+/-- what `calcOutflow` returns, exit by exit (no hypothesis on the parameters): the two zero-outflow exits, the full-drain exit,
+and the four exits that report the values of `runRouting` at the returned index flow `r.qi ≥ minQI` with what is known of the
+residual there. -/
+theorem calcOutflow_sq_cases (r : CO ℝ)
+    (h : calcOutflow inflow lateral bias prevQi po prevStorage ner area dead dur rp rc ql kl ko = .ok r) :
+    let c := mkCtx inflow lateral bias prevStorage ner area dead dur rp rc ql kl ko
+    let minQI := bias * (inflow + lateral)
+    ((r.tag = "zero-at-minqi" ∨ r.tag = "zero-maxqi-le-minqi") ∧ r.qi = minQI ∧ r.outflow = 0 ∧ r.storage = newStorage c) ∨
+    (r.tag = "full-drain-at-maxqi" ∧ r.qi = maxQI c minQI ∧ r.outflow = drainOutflow c ∧ r.storage = drainStorage c ∧
+      minQI < maxQI c minQI ∧ (rr c (maxQI c minQI)).massBalance < massBalanceLimit) ∨
+    (minQI ≤ r.qi ∧ r.outflow = (rr c r.qi).outflow ∧ r.storage = sIndex c r.qi ∧
+      (r.tag = "balanced-at-minqi" ∧ r.qi = minQI ∧ |(rr c r.qi).massBalance| ≤ massBalanceLimit ∨
+       (r.tag = "prev-qi" ∨ r.tag = "mid-qi") ∧ |(rr c r.qi).massBalance| < massBalanceLimit ∨
+       r.tag = "root" ∧ ∃ fr, findRoot (massBalanceFn c) (some (slopeOfMassBalance c)) minQI minQI (maxQI c minQI)
+            massBalanceLimit convergenceLimit maxIterations = .ok fr ∧
+          r.qi = fr.x ∧ fr.delta = (rr c fr.x).massBalance ∧ fr.exit ≠ .conv ∧
+          (fr.exit = .tol → |(rr c fr.x).massBalance| < massBalanceLimit))) := by
+  intro c minQI
+  rcases calcOutflow_cases inflow lateral bias prevQi po prevStorage ner area dead dur rp rc ql kl ko r h with
+    ⟨rfl, _⟩ | ⟨rfl, hlt, hge⟩ | ⟨rfl, _, _⟩ | ⟨hneg, hlt, hsolve⟩
+  · exact Or.inl ⟨Or.inl rfl, rfl, rfl, rfl⟩
+  · refine Or.inr (Or.inr ⟨le_refl _, rfl, rfl, Or.inl ⟨rfl, rfl, ?_⟩⟩)
+    exact abs_le.mpr ⟨hge, le_of_lt hlt⟩
+  · exact Or.inl ⟨Or.inr rfl, rfl, rfl, rfl⟩
+  · rcases solve_cases c prevQi _ _ r hsolve with ⟨rfl, hmx⟩ | ⟨hpos, hc⟩
+    · exact Or.inr (Or.inl ⟨rfl, rfl, rfl, rfl, hlt, hmx⟩)
+    · rcases hc with ⟨h1, _, habs, rfl⟩ | ⟨_, habs, rfl⟩ | ⟨fr, hfr, rfl⟩
+      · exact Or.inr (Or.inr ⟨le_of_lt h1, rfl, rfl, Or.inr (Or.inl ⟨Or.inl rfl, habs⟩)⟩)
+      · refine Or.inr (Or.inr ⟨?_, rfl, rfl, Or.inr (Or.inl ⟨Or.inr rfl, habs⟩)⟩)
+        show minQI ≤ (minQI + maxQI c minQI) / 2
+        linarith
+      · have f1 : massBalanceFn c minQI ≤ 0 := by
+          rw [massBalanceFn_real]; linarith [mbl_pos]
+        have f2 : 0 ≤ massBalanceFn c (maxQI c minQI) := by
+          rw [massBalanceFn_real]; linarith [mbl_pos]
+        have hle := le_of_lt hlt
+        have hx0 : minQI ≤ minQI ∧ minQI ≤ maxQI c minQI := ⟨le_refl _, hle⟩
+        have hin := C18.result_in_interval hle f1 f2 hx0 hfr
+        have hval := C18.result_delta_is_value hle f1 f2 hfr
+        rw [massBalanceFn_real] at hval
+        have hnc := C18.no_conv_exit (le_of_eq conv_eq) hle f1 f2 hfr
+        refine Or.inr (Or.inr ⟨hin.1, rfl, rfl, Or.inr (Or.inr ⟨rfl, fr, hfr, rfl, hval, hnc, fun hex => ?_⟩)⟩)
+        have ht := C18.tol_exit hle f1 f2 hfr hex
+        rwa [hval] at ht
+
+/-- the four exits of `calcOutflow` that report the values of `runRouting` -/
+def SIndexExit (tag : String) : Prop :=
+  tag = "balanced-at-minqi" ∨ tag = "prev-qi" ∨ tag = "mid-qi" ∨ tag = "root"
+
+/-- **sq_calcOutflow_bias** (any inflow bias `< 0.999`, `Δt > 0`): what `calcOutflow` RETURNS on the four exits that report the
+index storage. With `minQI = bias·(inflow+lateral)` and `residual = (rr c r.qi).massBalance`:
+* the returned index flow is `≥ minQI`, the reported storage IS the index storage of the returned index flow
+  (`r.storage = S(r.qi)`: dead storage / linear extension / `k·q^m − Koffset + dead`, `sIndex_eq`), and the reported outflow differs from
+  the outflow that the index-flow definition `q = bias·(inflow+lateral) + (1−bias)·outflow` gives by at most the residual as a volume;
+* `|residual| ≤ massBalanceLimit` on `balanced-at-minqi` (where `r.qi = minQI`), `< massBalanceLimit` on `prev-qi`, `mid-qi`;
+* on `root` the returned index flow is the one FindRoot returned, `delta` is its residual, the convergence-in-x exit was not taken,
+  and `|residual| < massBalanceLimit` if FindRoot returned through its tolerance test (it need not: `root_not_converged_counterexample`). -/
+theorem sq_calcOutflow_bias (hd : 0 < dur) (hb : bias < 0.999) (r : CO ℝ)
+    (h : calcOutflow inflow lateral bias prevQi po prevStorage ner area dead dur rp rc ql kl ko = .ok r)
+    (htag : SIndexExit r.tag) :
+    let c := mkCtx inflow lateral bias prevStorage ner area dead dur rp rc ql kl ko
+    let minQI := bias * (inflow + lateral)
+    minQI ≤ r.qi ∧ r.storage = sIndex c r.qi ∧
+    |(r.qi - minQI) / (1 - bias) - r.outflow| * dur ≤ |(rr c r.qi).massBalance| ∧
+    (r.tag = "balanced-at-minqi" → r.qi = minQI ∧ |(rr c r.qi).massBalance| ≤ massBalanceLimit) ∧
+    (r.tag = "prev-qi" ∨ r.tag = "mid-qi" → |(rr c r.qi).massBalance| < massBalanceLimit) ∧
+    (r.tag = "root" → ∃ fr, findRoot (massBalanceFn c) (some (slopeOfMassBalance c)) minQI minQI (maxQI c minQI)
+          massBalanceLimit convergenceLimit maxIterations = .ok fr ∧
+        r.qi = fr.x ∧ fr.delta = (rr c r.qi).massBalance ∧ fr.exit ≠ .conv ∧
+        (fr.exit = .tol → |(rr c r.qi).massBalance| < massBalanceLimit)) := by
+  intro c minQI
+  have hcd : 0 < c.duration := hd
+  have hcb : c.bias < 0.999 := hb
+  rcases calcOutflow_sq_cases inflow lateral bias prevQi po prevStorage ner area dead dur rp rc ql kl ko r h with
+    ⟨ht, _⟩ | ⟨ht, _⟩ | ⟨hge, hout, hst, hc⟩
+  · exfalso
+    rcases htag with h' | h' | h' | h' <;> rcases ht with ht | ht <;> rw [h'] at ht <;> exact absurd ht (by decide)
+  · exfalso
+    rcases htag with h' | h' | h' | h' <;> rw [h'] at ht <;> exact absurd ht (by decide)
+  · have hflow := sq_index_flow c r.qi hcd hcb hge
+    rw [← hout] at hflow
+    refine ⟨hge, hst, hflow, ?_, ?_, ?_⟩
+    · intro ht
+      rcases hc with ⟨_, e, hm⟩ | ⟨h', _⟩ | ⟨h', _⟩
+      · exact ⟨e, hm⟩
+      · rcases h' with h' | h' <;> rw [ht] at h' <;> exact absurd h' (by decide)
+      · rw [ht] at h'; exact absurd h' (by decide)
+    · intro ht
+      rcases hc with ⟨h', _⟩ | ⟨_, hm⟩ | ⟨h', _⟩
+      · rcases ht with ht | ht <;> rw [ht] at h' <;> exact absurd h' (by decide)
+      · exact hm
+      · rcases ht with ht | ht <;> rw [ht] at h' <;> exact absurd h' (by decide)
+    · intro ht
+      rcases hc with ⟨h', _⟩ | ⟨h', _⟩ | ⟨_, fr, hfr, e, hv, hnc, htol⟩
+      · rw [ht] at h'; exact absurd h' (by decide)
+      · rcases h' with h' | h' <;> rw [ht] at h' <;> exact absurd h' (by decide)
+      · exact ⟨fr, hfr, e, by rw [e]; exact hv, hnc, by rw [e]; exact htol⟩
+
+/-- **sq_calcOutflow**: zero inflow bias (`bias = 0`, hence `Klimit = k`, `Qlimit = 0`, `Koffset = 0` for `m ≤ 1`), `Δt > 0`. If
+`calcOutflow` returns `r` through one of the four exits that report the index storage, then for the RETURNED index flow `r.qi`:
+`r.qi ≥ 0`, the reported storage is `S = k·r.qi^m + dead` (`dead` at `r.qi = 0`) exactly, and the reported outflow differs from
+the index flow by at most the residual: `|r.qi − r.outflow|·Δt ≤ |residual(r.qi)|`, where `|residual| ≤ massBalanceLimit` on
+`balanced-at-minqi` (`r.qi = 0`), `< massBalanceLimit` on `prev-qi` / `mid-qi`, and on `root` when FindRoot returned through its
+tolerance test. (Corollary in the `… < massBalanceLimit` form: `sq_calcOutflow_converged`.) -/
+theorem sq_calcOutflow (hd : 0 < dur) (hrp : rp ≤ 1) (r : CO ℝ)
+    (h : calcOutflow inflow lateral 0 prevQi po prevStorage ner area dead dur rp rc 0 rc 0 = .ok r)
+    (htag : SIndexExit r.tag) :
+    let c := mkCtx inflow lateral 0 prevStorage ner area dead dur rp rc 0 rc 0
+    0 ≤ r.qi ∧ r.storage = (if r.qi ≤ 0 then dead else rc * r.qi ^ rp + dead) ∧
+    |r.qi - r.outflow| * dur ≤ |(rr c r.qi).massBalance| ∧
+    (r.tag = "balanced-at-minqi" → r.qi = 0 ∧ |(rr c r.qi).massBalance| ≤ massBalanceLimit) ∧
+    (r.tag = "prev-qi" ∨ r.tag = "mid-qi" → |(rr c r.qi).massBalance| < massBalanceLimit) ∧
+    (r.tag = "root" → ∃ fr, findRoot (massBalanceFn c) (some (slopeOfMassBalance c)) 0 0 (maxQI c 0)
+          massBalanceLimit convergenceLimit maxIterations = .ok fr ∧
+        r.qi = fr.x ∧ fr.delta = (rr c r.qi).massBalance ∧ fr.exit ≠ .conv ∧
+        (fr.exit = .tol → |(rr c r.qi).massBalance| < massBalanceLimit)) := by
+  intro c
+  have hb : (0 : ℝ) < 0.999 := by norm_num
+  obtain ⟨h1, h2, h3, h4, h5, h6⟩ :=
+    sq_calcOutflow_bias inflow lateral 0 prevQi po prevStorage ner area dead dur rp rc 0 rc 0 hd hb r h htag
+  simp only [zero_mul, sub_zero, div_one] at h1 h3 h4 h6
+  rw [sIndex_zero_bias inflow lateral prevStorage ner area dead dur rp rc r.qi hrp] at h2
+  exact ⟨h1, h2, h3, h4, h5, h6⟩
+
+/-- **sq_calcOutflow_converged** (the assembled storage-discharge statement): zero inflow bias, `m ≤ 1`, `Δt > 0`. If `calcOutflow`
+returns `r` with tag `balanced-at-minqi`, `prev-qi`, `mid-qi`, or `root` with the root search converged (FindRoot returned through
+its tolerance test), then `r.storage = k·r.qi^m + dead` and `|r.qi − r.outflow|·Δt ≤ massBalanceLimit`, strictly below except on
+`balanced-at-minqi` (whose acceptance test `−massBalanceLimit ≤ residual` is not strict; there `r.qi = 0`). -/
+theorem sq_calcOutflow_converged (hd : 0 < dur) (hrp : rp ≤ 1) (r : CO ℝ)
+    (h : calcOutflow inflow lateral 0 prevQi po prevStorage ner area dead dur rp rc 0 rc 0 = .ok r)
+    (htag : SIndexExit r.tag)
+    (hconv : r.tag = "root" → ∀ fr,
+      findRoot (massBalanceFn (mkCtx inflow lateral 0 prevStorage ner area dead dur rp rc 0 rc 0))
+        (some (slopeOfMassBalance (mkCtx inflow lateral 0 prevStorage ner area dead dur rp rc 0 rc 0))) 0 0
+        (maxQI (mkCtx inflow lateral 0 prevStorage ner area dead dur rp rc 0 rc 0) 0)
+        massBalanceLimit convergenceLimit maxIterations = .ok fr → fr.exit = .tol) :
+    0 ≤ r.qi ∧ r.storage = (if r.qi ≤ 0 then dead else rc * r.qi ^ rp + dead) ∧
+    |r.qi - r.outflow| * dur ≤ massBalanceLimit ∧
+    (r.tag ≠ "balanced-at-minqi" → |r.qi - r.outflow| * dur < massBalanceLimit) := by
+  obtain ⟨h1, h2, h3, h4, h5, h6⟩ :=
+    sq_calcOutflow inflow lateral prevQi po prevStorage ner area dead dur rp rc hd hrp r h htag
+  have hstrict : r.tag ≠ "balanced-at-minqi" →
+      |(rr (mkCtx inflow lateral 0 prevStorage ner area dead dur rp rc 0 rc 0) r.qi).massBalance| < massBalanceLimit := by
+    intro hne
+    rcases htag with ht | ht | ht | ht
+    · exact absurd ht hne
+    · exact h5 (Or.inl ht)
+    · exact h5 (Or.inr ht)
+    · obtain ⟨fr, hfr, _, _, _, htol⟩ := h6 ht
+      exact htol (hconv ht fr hfr)
+  refine ⟨h1, h2, ?_, fun hne => lt_of_le_of_lt h3 (hstrict hne)⟩
+  by_cases hbal : r.tag = "balanced-at-minqi"
+  · exact le_trans h3 (h4 hbal).2
+  · exact le_of_lt (lt_of_le_of_lt h3 (hstrict hbal))
+
+/-- **sq_full_drain** (any inflow bias `< 0.999`, previous storage ≥ 0, lateral ≥ 0, `Δt > 0`): the `full-drain-at-maxqi` exit.
+The returned index flow is `maxQI > minQI`; the reported outflow is POSITIVE and is exactly the outflow of that index flow
+(`r.qi = minQI + (1−bias)·r.outflow`; for zero bias `r.qi = r.outflow`); the reported storage is `0`; and the residual test that
+selects this exit says precisely that the index storage of the returned index flow is below the tolerance:
+`S(r.qi) < massBalanceLimit`. Hence, with `S ≥ 0`, the storage-discharge relation holds within the tolerance on this exit too:
+`|r.storage − S(r.qi)| < massBalanceLimit`. -/
+theorem sq_full_drain (hd : 0 < dur) (hp : 0 ≤ prevStorage) (hl : 0 ≤ lateral) (hb : bias < 0.999) (r : CO ℝ)
+    (h : calcOutflow inflow lateral bias prevQi po prevStorage ner area dead dur rp rc ql kl ko = .ok r)
+    (htag : r.tag = "full-drain-at-maxqi") :
+    let c := mkCtx inflow lateral bias prevStorage ner area dead dur rp rc ql kl ko
+    let minQI := bias * (inflow + lateral)
+    r.qi = maxQI c minQI ∧ minQI < r.qi ∧ 0 < r.outflow ∧ r.qi = minQI + (1 - bias) * r.outflow ∧ r.storage = 0 ∧
+      sIndex c r.qi < massBalanceLimit ∧ (0 ≤ sIndex c r.qi → |r.storage - sIndex c r.qi| < massBalanceLimit) := by
+  intro c minQI
+  have hcb : c.bias < 0.999 := hb
+  have hb1 : (0 : ℝ) < 1 - c.bias := by
+    have : (0.999 : ℝ) < 1 := by norm_num
+    linarith
+  obtain ⟨_, hns, h0⟩ := avail_nonneg inflow lateral bias prevStorage ner area dead dur rp rc ql kl ko hd hp hl
+  have hflux := flux_eq_avail inflow lateral bias prevStorage ner area dead dur rp rc ql kl ko hd hp
+  simp only at hflux
+  rcases calcOutflow_sq_cases inflow lateral bias prevQi po prevStorage ner area dead dur rp rc ql kl ko r h with
+    ⟨ht, _⟩ | ⟨_, hqi, hout, hst, hlt, hmx⟩ | ⟨_, _, _, hc⟩
+  · exfalso
+    rcases ht with ht | ht <;> rw [htag] at ht <;> exact absurd ht (by decide)
+  · obtain ⟨_, hds, _⟩ := balance_path_full_drain inflow lateral bias prevStorage ner area dead dur rp rc ql kl ko hd hp hl
+      r.qi r.tag
+    have hdo : drainOutflow c = c.initialFluxMax - netEvaporationFlux c + c.lateral := by
+      unfold drainOutflow; exact max_eq_right h0
+    have hmq : maxQI c minQI = minQI + (1 - c.bias) * drainOutflow c := maxQI_eq c minQI
+    have hpos : 0 < drainOutflow c := by
+      have : 0 < (1 - c.bias) * drainOutflow c := by linarith
+      exact (mul_pos_iff_of_pos_left hb1).mp this
+    have hS : sIndex c (maxQI c minQI) < massBalanceLimit := by
+      rw [rr_massBalance c _ hcb, hns] at hmx
+      have hmin : c.bias * (c.inflow + c.lateral) = minQI := rfl
+      have e : (maxQI c minQI - c.bias * (c.inflow + c.lateral)) * c.duration / (1 - c.bias) = avail c := by
+        rw [hmin, hmq, ← hflux, ← hdo]
+        field_simp
+        ring
+      rw [e] at hmx
+      linarith
+    rw [hqi, hout, hst]
+    refine ⟨rfl, hlt, hpos, hmq, hds, hS, fun hnn => ?_⟩
+    rw [hds, zero_sub, abs_neg, abs_of_nonneg hnn]
+    exact hS
+  · exfalso
+    rcases hc with ⟨ht, _⟩ | ⟨ht, _⟩ | ⟨ht, _⟩
+    · rw [htag] at ht; exact absurd ht (by decide)
+    · rcases ht with ht | ht <;> rw [htag] at ht <;> exact absurd ht (by decide)
+    · rw [htag] at ht; exact absurd ht (by decide)
+
+/-- **sq_zero_at_minqi** (why the storage-discharge relation is NOT claimed on the zero-outflow exit; bias `< 0.999`): on
+`zero-at-minqi` the outflow is `0`, the index flow is `minQI`, and the reported (water-balance) storage lies at least
+`massBalanceLimit` BELOW the index storage of that index flow — a reach filling up below its index storage releases nothing.
+(Witness: the last `example` of this file — dead storage 1000 m³, reported storage 86.4 m³. The other zero-outflow exit,
+`zero-maxqi-le-minqi`, cannot be taken in exact arithmetic: `zero_maxqi_unreachable`.) -/
+theorem sq_zero_at_minqi (hb : bias < 0.999) (r : CO ℝ)
+    (h : calcOutflow inflow lateral bias prevQi po prevStorage ner area dead dur rp rc ql kl ko = .ok r)
+    (htag : r.tag = "zero-at-minqi") :
+    let c := mkCtx inflow lateral bias prevStorage ner area dead dur rp rc ql kl ko
+    r.qi = bias * (inflow + lateral) ∧ r.outflow = 0 ∧ r.storage = newStorage c ∧
+      r.storage + massBalanceLimit ≤ sIndex c r.qi := by
+  intro c
+  have hcb : c.bias < 0.999 := hb
+  rcases calcOutflow_cases inflow lateral bias prevQi po prevStorage ner area dead dur rp rc ql kl ko r h with
+    ⟨rfl, hge⟩ | ⟨rfl, _, _⟩ | ⟨rfl, _, _⟩ | ⟨_, _, hsolve⟩
+  · refine ⟨rfl, rfl, rfl, ?_⟩
+    rw [rr_massBalance c _ hcb] at hge
+    have hz : bias * (inflow + lateral) - c.bias * (c.inflow + c.lateral) = 0 := by
+      show bias * (inflow + lateral) - bias * (inflow + lateral) = 0; ring
+    rw [hz, zero_mul, zero_div, zero_add] at hge
+    show newStorage c + massBalanceLimit ≤ sIndex c (bias * (inflow + lateral))
+    linarith
+  · simp only at htag; exact absurd htag (by decide)
+  · simp only at htag; exact absurd htag (by decide)
+  · rcases solve_cases c prevQi _ _ r hsolve with ⟨rfl, _⟩ | ⟨_, ⟨_, _, _, rfl⟩ | ⟨_, _, rfl⟩ | ⟨fr, _, rfl⟩⟩ <;>
+      (simp only at htag; exact absurd htag (by decide))
+
+/-- non-vacuity of `sq_calcOutflow` / `sq_calcOutflow_converged` / `sq_calcOutflow_bias`: a call that leaves through `balanced-at-minqi`
+(zero bias, `k = 5000`, `m = 0.8`, no dead storage, empty reach, no inflow: index flow 0, storage 0, outflow 0) -/
+example : calcOutflow (0 : ℝ) 0 0 0 0 0 0 0 0 86400 0.8 5000 0 5000 0 = .ok ⟨0, 0, 0, "balanced-at-minqi"⟩ ∧
+    SIndexExit "balanced-at-minqi" ∧ (0 : ℝ) < 86400 ∧ (0.8 : ℝ) ≤ 1 := by
+  refine ⟨?_, Or.inl rfl, by norm_num, by norm_num⟩
+  have hS : sIndex (mkCtx (0 : ℝ) 0 0 0 0 0 0 86400 0.8 5000 0 5000 0) (0 * (0 + 0)) = 0 := by
+    rw [sIndex_eq]; simp [mkCtx]
+  have hN : newStorage (mkCtx (0 : ℝ) 0 0 0 0 0 0 86400 0.8 5000 0 5000 0) = 0 := by
+    rw [newStorage_eq, nef_eq]
+    simp only [mkCtx, RealNum.gmax_eq, z0]
+    norm_num
+  have hM : (rr (mkCtx (0 : ℝ) 0 0 0 0 0 0 86400 0.8 5000 0 5000 0) (0 * (0 + 0))).massBalance = 0 := by
+    rw [rr_massBalance _ _ (by show (0:ℝ) < 0.999; norm_num), hS, hN]
+    simp [mkCtx]
+  have hO : (rr (mkCtx (0 : ℝ) 0 0 0 0 0 0 86400 0.8 5000 0 5000 0) (0 * (0 + 0))).outflow = 0 := by
+    rw [rr_outflow, hS, hN]; simp
+  unfold calcOutflow
+  simp only [runRouting_real, RealNum.isNaN_eq, Bool.or_self, Bool.false_eq_true, if_false, z0]
+  rw [if_neg (by rw [hM, mbl_eq]; norm_num), if_pos (by rw [hM, mbl_eq]; norm_num), hO, rr_sIndex, hS]
+  norm_num
+
+/-- non-vacuity of `sq_full_drain`: zero bias, `k = 1/2`, `m = 1`, 100 m³ in the reach, no inflow, Δt = 86400 s: the index storage at the
+maximum index flow is 50/86400 m³ < `massBalanceLimit`, the call leaves through `full-drain-at-maxqi` with index flow = outflow =
+100/86400 m³/s (positive) and storage 0 -/
+example : calcOutflow (0:ℝ) 0 0 0 0 100 0 0 0 86400 1 (1/2) 0 (1/2) 0 = .ok ⟨100/86400, 100/86400, 0, "full-drain-at-maxqi"⟩ := by
+  have hifm : (mkCtx (0:ℝ) 0 0 100 0 0 0 86400 1 (1/2) 0 (1/2) 0).initialFluxMax = 100 / 86400 := by
+    rw [mkCtx_ifm _ _ _ _ _ _ _ _ _ _ _ _ _ (by norm_num)]; norm_num
+  have hnef : netEvaporationFlux (mkCtx (0:ℝ) 0 0 100 0 0 0 86400 1 (1/2) 0 (1/2) 0) = 0 := by
+    rw [nef_eq, hifm]; simp only [mkCtx]; norm_num
+  have hN : newStorage (mkCtx (0:ℝ) 0 0 100 0 0 0 86400 1 (1/2) 0 (1/2) 0) = 100 := by
+    rw [newStorage_eq, hnef]; simp only [mkCtx]; norm_num
+  have hS0 : sIndex (mkCtx (0:ℝ) 0 0 100 0 0 0 86400 1 (1/2) 0 (1/2) 0) (0 * (0 + 0)) = 0 := by
+    rw [sIndex_eq]; simp [mkCtx]
+  have hmx : maxQI (mkCtx (0:ℝ) 0 0 100 0 0 0 86400 1 (1/2) 0 (1/2) 0) (0 * (0 + 0)) = 100 / 86400 := by
+    rw [maxQI_eq]; unfold drainOutflow; rw [hifm, hnef]; simp only [mkCtx]; norm_num
+  have hS1 : sIndex (mkCtx (0:ℝ) 0 0 100 0 0 0 86400 1 (1/2) 0 (1/2) 0) (100 / 86400) = 50 / 86400 := by
+    rw [sIndex_eq]; simp only [mkCtx]
+    rw [if_neg (by norm_num), Real.rpow_one]; norm_num
+  have hM0 : (rr (mkCtx (0:ℝ) 0 0 100 0 0 0 86400 1 (1/2) 0 (1/2) 0) (0 * (0 + 0))).massBalance = -100 := by
+    rw [rr_massBalance _ _ (by show (0:ℝ) < 0.999; norm_num), hS0, hN]; simp [mkCtx]
+  have hM1 : (rr (mkCtx (0:ℝ) 0 0 100 0 0 0 86400 1 (1/2) 0 (1/2) 0) (100 / 86400)).massBalance = 50 / 86400 := by
+    rw [rr_massBalance _ _ (by show (0:ℝ) < 0.999; norm_num), hS1, hN]; simp only [mkCtx]; norm_num
+  unfold calcOutflow
+  simp only [runRouting_real, RealNum.isNaN_eq, Bool.or_self, Bool.false_eq_true, if_false, z0]
+  rw [if_neg (by rw [hM0, mbl_eq]; norm_num), if_neg (by rw [hM0, mbl_eq]; norm_num), hmx, if_neg (by norm_num)]
+  unfold solve
+  simp only [runRouting_real, RealNum.gmax_eq, z0]
+  rw [if_pos (by rw [hM1, mbl_eq]; norm_num), hifm, hnef]
+  simp only [mkCtx]
+  norm_num
+
+/-- if the first halving trial is within the tolerance, FindRoot returns it through its tolerance test -/
+theorem findRoot_first_halving_tol {f : ℝ → ℝ} {f' : Option (ℝ → ℝ)} {x0 lo hi tol conv : ℝ} {n : Nat}
+    (h1 : f lo ≤ 0) (h2 : 0 ≤ f hi) (ht : |f (halvingX ⟨lo, f lo, hi, f hi⟩)| < tol) :
+    ∃ r, findRoot f f' x0 lo hi tol conv (n + 1) = .ok r ∧ r.x = halvingX ⟨lo, f lo, hi, f hi⟩ ∧ r.exit = .tol := by
+  rw [OW.Proofs.FindRoot.findRoot_eq h1 h2]
+  obtain ⟨rest, hrest⟩ := OW.Proofs.FindRoot.trialXs_head f' x0 (f x0) ⟨lo, f lo, hi, f hi⟩
+  refine ⟨_, rfl, ?_⟩
+  unfold iterate
+  simp only [hrest, trialLoop, trialStep, RealNum.abs_eq, if_pos ht]
+  exact ⟨trivial, trivial⟩
+
+/-- context of the converged-root example below -/
+noncomputable abbrev cConv : Ctx ℝ := mkCtx (0:ℝ) 0 0 172800 0 0 0 86400 1 86400 0 86400 0
+
+/-- the numbers of the converged-root example -/
+theorem cConv_facts :
+    cConv.initialFluxMax = 2 ∧ netEvaporationFlux cConv = 0 ∧ newStorage cConv = 172800 ∧
+    maxQI cConv (0 * (0 + 0)) = 2 ∧
+    (∀ q : ℝ, 0 < q → (rr cConv q).massBalance = q * 86400 + 86400 * q - 172800) ∧
+    (rr cConv (0 * (0 + 0))).massBalance = -172800 := by
+  have hifm : cConv.initialFluxMax = 2 := by
+    rw [mkCtx_ifm _ _ _ _ _ _ _ _ _ _ _ _ _ (by norm_num)]; norm_num
+  have hnef : netEvaporationFlux cConv = 0 := by
+    rw [nef_eq, hifm]; simp only [mkCtx]; norm_num
+  have hN : newStorage cConv = 172800 := by
+    rw [newStorage_eq, hnef]; simp only [mkCtx]; norm_num
+  have hmx : maxQI cConv (0 * (0 + 0)) = 2 := by
+    rw [maxQI_eq]; unfold drainOutflow; rw [hifm, hnef]; simp only [mkCtx]; norm_num
+  refine ⟨hifm, hnef, hN, hmx, ?_, ?_⟩
+  · intro q hq
+    have hS : sIndex cConv q = 86400 * q := by
+      rw [sIndex_eq]; simp only [mkCtx]
+      rw [if_neg (not_le.mpr hq), if_neg (by rintro (⟨_, h⟩ | ⟨h, _⟩) <;> linarith), Real.rpow_one]; ring
+    rw [rr_massBalance _ _ (by show (0:ℝ) < 0.999; norm_num), hS, hN]; simp only [mkCtx]; ring
+  · have hS0 : sIndex cConv (0 * (0 + 0)) = 0 := by
+      rw [sIndex_eq]; simp [mkCtx]
+    rw [rr_massBalance _ _ (by show (0:ℝ) < 0.999; norm_num), hS0, hN]; simp only [mkCtx]; norm_num
+
+/-- non-vacuity of the `root` branch of `sq_calcOutflow` / `sq_calcOutflow_converged` (a CONVERGED root search): zero bias, `k = 86400`,
+`m = 1`, Δt = 86400 s, 172800 m³ in the reach, no inflow, carried index flow 1/2. The residual at the carried index flow is −86400 m³,
+so `calcOutflow` calls FindRoot on `[0, 2]`; its first halving trial `q = 1` has residual 0 and is returned through the tolerance
+test; the call reports index flow 1 = outflow 1 m³/s and storage 86400 = k·1^m m³ with tag `root`, and the convergence hypothesis of
+`sq_calcOutflow_converged` holds -/
+example : calcOutflow (0:ℝ) 0 0 (1/2) 0 172800 0 0 0 86400 1 86400 0 86400 0 = .ok ⟨1, 1, 86400, "root"⟩ ∧
+    (∀ fr, findRoot (massBalanceFn cConv) (some (slopeOfMassBalance cConv)) 0 0 (maxQI cConv 0)
+        massBalanceLimit convergenceLimit maxIterations = .ok fr → fr.exit = .tol) := by
+  obtain ⟨hifm, hnef, hN, hmx, hmb, hmb0⟩ := cConv_facts
+  have e0 : (0:ℝ) * (0 + 0) = 0 := by ring
+  have f1 : massBalanceFn cConv 0 ≤ 0 := by rw [massBalanceFn_real, ← e0, hmb0]; norm_num
+  have f2 : 0 ≤ massBalanceFn cConv 2 := by rw [massBalanceFn_real, hmb 2 (by norm_num)]; norm_num
+  have hh : halvingX (⟨0, massBalanceFn cConv 0, 2, massBalanceFn cConv 2⟩ : Bracket ℝ) = 1 := by
+    unfold halvingX; norm_num
+  have ht : |massBalanceFn cConv (halvingX ⟨0, massBalanceFn cConv 0, 2, massBalanceFn cConv 2⟩)| < massBalanceLimit := by
+    rw [hh, massBalanceFn_real, hmb 1 (by norm_num), mbl_eq]; norm_num
+  obtain ⟨fr, hfr, hx, hex⟩ := findRoot_first_halving_tol (f' := some (slopeOfMassBalance cConv)) (x0 := 0)
+    (conv := convergenceLimit) (n := 19) f1 f2 ht
+  rw [hh] at hx
+  have hmx0 : maxQI cConv 0 = 2 := by rw [← e0]; exact hmx
+  constructor
+  · have hS1 : sIndex cConv 1 = 86400 := by
+      rw [sIndex_eq]; simp only [mkCtx]
+      rw [if_neg (by norm_num), if_neg (by rintro (⟨_, h⟩ | ⟨h, _⟩) <;> linarith), Real.rpow_one]; norm_num
+    have hO1 : (rr cConv 1).outflow = 1 := by
+      rw [rr_outflow, hS1, hN]; simp only [mkCtx]; norm_num
+    unfold calcOutflow
+    simp only [runRouting_real, RealNum.isNaN_eq, Bool.or_self, Bool.false_eq_true, if_false, z0]
+    rw [if_neg (by rw [hmb0, mbl_eq]; norm_num), if_neg (by rw [hmb0, mbl_eq]; norm_num), hmx, if_neg (by norm_num)]
+    unfold solve
+    simp only [runRouting_real, RealNum.abs_eq, RealNum.isNaN_eq]
+    rw [if_neg (by rw [hmb 2 (by norm_num), mbl_eq]; norm_num)]
+    have hr : (decide ((1/2 : ℝ) ≤ 0 * (0 + 0)) || decide ((2:ℝ) ≤ 1/2)) = false := by
+      simp only [Bool.or_eq_false_iff, decide_eq_false_iff_not]; constructor <;> norm_num
+    simp only [hr, Bool.false_eq_true, if_false]
+    rw [if_neg (by rw [hmb (1/2) (by norm_num), mbl_eq]; norm_num), e0]
+    have hfr' : findRoot (massBalanceFn cConv) (some (slopeOfMassBalance cConv)) 0 0 2 massBalanceLimit convergenceLimit
+        maxIterations = .ok fr := hfr
+    simp only [hfr', List.any_eq_true, Bool.false_eq_true, and_false, exists_false, if_false]
+    rw [hx, hO1, rr_sIndex, hS1]
+  · intro fr' hfr'
+    rw [hmx0] at hfr'
+    have : findRoot (massBalanceFn cConv) (some (slopeOfMassBalance cConv)) 0 0 2 massBalanceLimit convergenceLimit
+        (19 + 1) = .ok fr' := hfr'
+    rw [hfr] at this
+    cases this
+    exact hex
+
 /- FULL STATEMENT: on the `root` exit FindRoot always returns through its tolerance test, i.e.
    `|residual(q)| < massBalanceLimit` for the returned index flow, for all parameters of the region and all inputs.
    THIS IS FALSE for the code (exact arithmetic AND the real float code): `root_not_converged_counterexample` below.
@@ -437,8 +973,8 @@ theorem root_converges_partial (c : Ctx ℝ) (minQI mx L : ℝ) (hle : minQI ≤
   have f1 : massBalanceFn c minQI ≤ 0 := by rw [massBalanceFn_real]; exact h1
   have f2 : 0 ≤ massBalanceFn c mx := by rw [massBalanceFn_real]; exact h2
   have hx0 : minQI ≤ minQI ∧ minQI ≤ mx := ⟨le_refl _, hle⟩
-  have := C18.tolerance_reached hmono hlip (le_of_eq conv_eq) hle f1 f2 hx0 (by unfold maxIterations; norm_num) hbudget hfr
-  rw [C18.result_delta_is_value hle f1 f2 hx0 hfr, massBalanceFn_real] at this
+  have := C18.tolerance_reached hmono hlip (le_of_eq conv_eq) hle f1 f2 (by unfold maxIterations; norm_num) hbudget hfr
+  rw [C18.result_delta_is_value hle f1 f2 hfr, massBalanceFn_real] at this
   exact this
 
 /-- **root_exit_unconditional.** What the root search of `calcOutflow` guarantees for EVERY context `c` (any parameters, any
@@ -463,19 +999,19 @@ theorem root_exit_unconditional (c : Ctx ℝ) (minQI mx : ℝ) (hle : minQI ≤ 
   have f1 : massBalanceFn c minQI ≤ 0 := by rw [massBalanceFn_real]; exact h1
   have f2 : 0 ≤ massBalanceFn c mx := by rw [massBalanceFn_real]; exact h2
   have hx0 : minQI ≤ minQI ∧ minQI ≤ mx := ⟨le_refl _, hle⟩
-  have hval := C18.result_delta_is_value hle f1 f2 hx0 hfr
+  have hval := C18.result_delta_is_value hle f1 f2 hfr
   rw [massBalanceFn_real] at hval
   obtain ⟨b1, b2, b3, _, _, b6, b7⟩ := C18.bracket_inv hle f1 f2 hx0 hfr
   rw [massBalanceFn_real] at b6 b7
   refine ⟨C18.result_in_interval hle f1 f2 hx0 hfr, hval, ⟨b2, b1, b3, b6, b7⟩,
-    C18.no_conv_exit (le_of_eq conv_eq) hle f1 f2 hx0 hfr, ?_, ?_⟩
+    C18.no_conv_exit (le_of_eq conv_eq) hle f1 f2 hfr, ?_, ?_⟩
   · intro he
-    have := C18.tol_exit hle f1 f2 hx0 hfr he
+    have := C18.tol_exit hle f1 f2 hfr he
     rwa [hval] at this
   · intro he
-    have hw := C18.width_halves hle f1 f2 hx0 hfr he
+    have hw := C18.width_halves hle f1 f2 hfr he
     have hne : fr.exit ≠ .tol := by rw [he]; intro h; cases h
-    obtain ⟨a, b⟩ := C18.delta_le_final_ends hle f1 f2 hx0 (by unfold maxIterations; norm_num) hfr hne
+    obtain ⟨a, b⟩ := C18.delta_le_final_ends hle f1 f2 (by unfold maxIterations; norm_num) hfr hne
     rw [hval, massBalanceFn_real] at a b
     exact ⟨hw, a, b⟩
 
@@ -534,7 +1070,7 @@ theorem root_residual_le_ends_zero_bias (c : Ctx ℝ) (hb : c.bias = 0) (hq : c.
   have hmono : MonotoneOn (massBalanceFn c) (Set.Icc minQI mx) :=
     (massBalanceFn_mono_zero_bias c hb hq hko hk hm0 hm1 hd).monotoneOn _
   have := C18.better_end hmono hle f1 f2 hx0 (by unfold maxIterations; norm_num) hfr
-  rw [C18.result_delta_is_value hle f1 f2 hx0 hfr] at this
+  rw [C18.result_delta_is_value hle f1 f2 hfr] at this
   simpa only [massBalanceFn_real] using this
 
 /-- **root_not_converged_counterexample.** "20 iterations always suffice" is FALSE for the code. Zero inflow bias, routing
@@ -612,12 +1148,19 @@ example : (rr cStall 0).massBalance ≤ 0 ∧ 0 ≤ (rr cStall (1000 / 86400)).m
 
 /-! ### the whole run: the balance closes at EVERY timestep -/
 
-/-- what must hold between the storage before a step, the step's inputs and its reported outputs -/
+/-- what must hold between the storage before a step, the step's inputs and its reported outputs. Last clause: on a `root` step
+the balance error is bounded by the residual `δ` that FindRoot returned for this step's context (`err ≤ max 0 δ`; the search is a
+function of the storage before the step, the step's inputs and the parameters only), `δ` being the residual at the returned index
+flow, never through the convergence-in-x exit, and `err < massBalanceLimit` whenever FindRoot returned through its tolerance test. -/
 def StepOK (su : Setup ℝ) (k area dead dt : ℝ) (prev : ℝ) (i : ℝ × ℝ × ℝ × ℝ) (o : Out ℝ) : Prop :=
   let c := mkCtx i.1 i.2.1 su.bias prev ((i.2.2.2 - i.2.2.1) / dt) area dead dt su.x k su.qlimit su.klimit su.koffset
   let err := o.storage - (prev + (i.1 + i.2.1 - netEvaporationFlux c - o.outflow) * dt)
   0 ≤ o.outflow ∧ 0 ≤ o.storage ∧ 0 ≤ err ∧ (err < massBalanceLimit ∨ o.tag = "root") ∧
-    (o.tag = "zero-at-minqi" ∨ o.tag = "zero-maxqi-le-minqi" ∨ o.tag = "full-drain-at-maxqi" → err = 0)
+    (o.tag = "zero-at-minqi" ∨ o.tag = "zero-maxqi-le-minqi" ∨ o.tag = "full-drain-at-maxqi" → err = 0) ∧
+    (o.tag = "root" → ∃ fr, findRoot (massBalanceFn c) (some (slopeOfMassBalance c)) (su.bias * (i.1 + i.2.1))
+        (su.bias * (i.1 + i.2.1)) (maxQI c (su.bias * (i.1 + i.2.1))) massBalanceLimit convergenceLimit maxIterations = .ok fr ∧
+      fr.delta = (rr c fr.x).massBalance ∧ err ≤ max 0 fr.delta ∧ fr.exit ≠ .conv ∧
+      (fr.exit = .tol → err < massBalanceLimit))
 
 def Chain (P : ℝ → ℝ × ℝ × ℝ × ℝ → Out ℝ → Prop) : ℝ → List (ℝ × ℝ × ℝ × ℝ) → List (Out ℝ) → Prop
   | _, [], [] => True
@@ -657,7 +1200,13 @@ theorem scan_chain (su : Setup ℝ) (k area dead dt : ℝ) (hdt : 0 < dt) (hb : 
     simp only
     rw [balanceErr_eq] at hbal
     obtain ⟨e0, ecase⟩ := hbal
-    refine ⟨hnn.1, hnn.2, e0, ?_, ?_⟩
+    refine ⟨hnn.1, hnn.2, e0, ?_, ?_, ?_⟩
+    rotate_left 2
+    · intro htag
+      rcases ecase with ⟨ht, _⟩ | ⟨ht, _⟩ | ⟨_, fr, hfr, _, hval, hle, hnc, htol⟩
+      · rcases ht with h' | h' | h' <;> rw [htag] at h' <;> exact absurd h' (by decide)
+      · rcases ht with h' | h' | h' <;> rw [htag] at h' <;> exact absurd h' (by decide)
+      · exact ⟨fr, hfr, hval, hle, hnc, htol⟩
     · rcases ecase with ⟨_, h0⟩ | ⟨_, hlt⟩ | ⟨hroot, _⟩
       · left
         have : r.storage - (st.storage + (inflow + lateral - netEvaporationFlux (mkCtx inflow lateral su.bias st.storage
@@ -675,8 +1224,10 @@ theorem scan_chain (su : Setup ℝ) (k area dead dt : ℝ) (hdt : 0 < dt) (hb : 
 `dead ≥ 0`, `Δt > 0`), every initial storage `s ≥ 0` and every series with non-negative lateral inflow (any inflow, rain and
 evaporation): the run completes (no panic), and AT EVERY TIMESTEP the reported outflow and storage are non-negative and
 `storage_t − (storage_{t−1} + (inflow + lateral − netEvaporation − outflow)·Δt)` is `≥ 0`, is `0` on the three exits without
-a solver, and `< massBalanceLimit` except possibly on root-finder steps whose 20 iterations ran out
-(`calcOutflow_balance` gives the exact residual there). -/
+a solver, and `< massBalanceLimit` except possibly on root-finder steps whose 20 iterations ran out; on EVERY root-finder step
+`StepOK` carries `err ≤ max 0 δ` for the residual `δ` FindRoot returned for that step (`δ` = residual at the returned index flow,
+convergence-in-x exit never taken, tolerance exit ⇒ `err < massBalanceLimit`). A run with such an unconverged root step exists:
+`run_not_converged_counterexample` (there `δ = −1000 m³`, so `err = 0`: the balance closes, the S–Q relation does not). -/
 theorem run_balance (bias k x area dead dt s : ℝ) (hb0 : 0 ≤ bias) (hb1 : bias < 0.999) (hk : 0 < k) (hx0 : 0 < x) (hx1 : x ≤ 1)
     (hdead : 0 ≤ dead) (hdt : 0 < dt) (hs : 0 ≤ s) (xs : List (ℝ × ℝ × ℝ × ℝ)) (hlat : ∀ i ∈ xs, 0 ≤ i.2.1) :
     (∃ fin, (run bias k x area dead dt s xs).1 = .ok fin) ∧
